@@ -1,2 +1,141 @@
-(* C05 — stub: no theorems yet *)
-From Zap Require Import Base.Wire C05.Model C05.Proofs.
+(* C05 — An entry is written exactly where its level is enabled; reported levels agree.
+   Only statements closed by [exact]; proofs are in C05/CoreProofs.v and C05/Proofs.v.
+   The model (C05/Cores.v) follows zapcore's Check/Enabled/Level methods, Logger.check and the
+   front-end guards; [delivered], [hooks_due], [accepts], [min_delivered] are the specification
+   (the root-to-leaf paths of the tree with the level filters on them).
+   Levels range over all of Z (so over all 256 int8 values), enablers are arbitrary functions,
+   AtomicLevel cells hold arbitrary values, trees have any depth and fan-out. *)
+From Coq Require Import List Bool ZArith.
+Import ListNotations.
+From Zap Require Import Base.Wire C05.Cores C05.CoreProofs C05.Model C05.Proofs.
+Open Scope Z_scope.
+
+(* Core.Check registers exactly the leaves all of whose level filters enable the level - whatever
+   was registered before (e is the entry passed in by an enclosing tee), to any depth *)
+Theorem C05_delivery : forall w c l e,
+  leaves_of (cores_of (check w c l e)) = leaves_of (cores_of e) ++ delivered w c l.
+Proof. exact delivery_thm. Qed.
+Print Assumptions C05_delivery.
+
+(* through every front end (Logger, Check/Write, the sugared variants, zapio, the std-log bridge,
+   the gRPC adapter) with their pre-checks: the leaves written are the delivered ones, the hooks
+   run are the due ones - at every level value *)
+Theorem C05_front_ends : forall w c f l,
+  leaves_of (call_writers w c f l) = delivered w c l /\
+  hooks_of (call_writers w c f l) = hooks_due w c l.
+Proof. exact (fun w c f l => conj (logger_delivery_thm w c f l) (logger_hooks_thm w c f l)). Qed.
+Print Assumptions C05_front_ends.
+
+(* a tee delivers to each branch independently *)
+Theorem C05_tee_independent : forall w cs l,
+  delivered w (Tee cs) l = flat_map (fun c => delivered w c l) cs.
+Proof. exact delivered_tee. Qed.
+Print Assumptions C05_tee_independent.
+
+(* a level-increasing wrapper only ever narrows *)
+Theorem C05_filter_narrows : forall w c en l,
+  delivered w (Filter c en) l = (if on w en l then delivered w c l else []) /\
+  incl (delivered w (Filter c en) l) (delivered w c l) /\
+  (enabled w (Filter c en) l = true -> enabled w c l = true).
+Proof. exact filter_narrows_thm. Qed.
+Print Assumptions C05_filter_narrows.
+
+(* NewIncreaseLevelCore accepts an enabler iff it allows no valid level at which the wrapped core
+   delivers nothing *)
+Theorem C05_increase_validation : forall w c en,
+  increase_ok w c en = true <-> (forall l, is_valid l = true -> on w en l = true -> delivered w c l <> []).
+Proof. exact increase_ok_thm. Qed.
+Print Assumptions C05_increase_validation.
+
+(* hooks fire exactly once for each entry their wrapped core accepts and never otherwise *)
+Theorem C05_hook_once : forall w c l e,
+  hooks_of (cores_of (check w c l e)) = hooks_of (cores_of e) ++ hooks_due w c l.
+Proof. exact hooks_thm. Qed.
+Print Assumptions C05_hook_once.
+
+(* a disabled entry: no core and no hook is written through any front end; below DPanic no user
+   payload (message argument, call-site field) is evaluated either *)
+Theorem C05_disabled_silent : forall w c io f l,
+  enabled w c l = false ->
+  call_writers w c f l = [] /\ (l < DPanicL -> payload_evals w c io f l = 0%nat).
+Proof. exact disabled_silent_thm. Qed.
+Print Assumptions C05_disabled_silent.
+
+(* Enabled(l) says exactly whether something is delivered, for every level value *)
+Theorem C05_enabled_iff_delivered : forall w c l,
+  enabled w c l = true <-> delivered w c l <> [].
+Proof. exact (fun w c l => eq_ind_r (fun b => b = true <-> _) (accepts_true w c l) (enabled_accepts w l c)). Qed.
+Print Assumptions C05_enabled_iff_delivered.
+
+(* the reported minimum level (Logger.Level, LevelOf) is consistent with delivery *)
+Theorem C05_level_consistent : forall w c,
+  (forall l, is_valid l = true -> l < level_of w c -> delivered w c l = []) /\
+  (is_valid (level_of w c) = true -> delivered w c (level_of w c) <> []).
+Proof. exact level_consistent_thm. Qed.
+Print Assumptions C05_level_consistent.
+
+(* ... and it is exactly the lowest valid level at which something is delivered, InvalidLevel when
+   there is none, as long as the AtomicLevels hold values in _minLevel..InvalidLevel *)
+Theorem C05_level_exact : forall w c,
+  (forall a, In a (cells c) -> min_level <= w a <= InvalidL) ->
+  level_of w c = min_delivered w c.
+Proof. exact level_exact_thm. Qed.
+Print Assumptions C05_level_exact.
+
+(* the gRPC adapter's V *)
+Theorem C05_grpc_v : forall w c n, grpc_v w c n = true <-> delivered w c (grpc_level n) <> [].
+Proof. exact (fun w c n => eq_ind_r (fun b => b = true <-> _) (accepts_true w c (grpc_level n)) (enabled_accepts w (grpc_level n) c)). Qed.
+Print Assumptions C05_grpc_v.
+
+(* With (and the lazy variant) changes nothing about delivery *)
+Theorem C05_with_preserves : forall w c l e,
+  cores_of (check w (with_core c) l e) = cores_of (check w c l e) /\
+  enabled w (with_core c) l = enabled w c l.
+Proof. exact (fun w c l e => conj (check_with_core w c l e) (enabled_with_core w c l)). Qed.
+Print Assumptions C05_with_preserves.
+
+(* every interleaving of AtomicLevel changes and log calls on any number of loggers sharing the
+   cells: each call is decided by the latest value of every cell *)
+Theorem C05_atomic_history : forall w0 cs ops,
+  map (fun ws => (leaves_of ws, hooks_of ws)) (hrun w0 cs ops) = hspec w0 cs [] ops.
+Proof. exact (fun w0 cs ops => atomic_history_thm cs ops w0 [] w0 (fun a => eq_refl)). Qed.
+Print Assumptions C05_atomic_history.
+
+(* ---- the code before the fix commits (documentation of the defects) ---- *)
+Theorem C05_hook_once_orig_refuted : ~ hook_once_orig_full.
+Proof. exact hook_once_orig_refuted. Qed.
+Print Assumptions C05_hook_once_orig_refuted.
+Theorem C05_tee_level_orig_refuted : ~ level_consistent_orig_full.
+Proof. exact tee_level_orig_refuted. Qed.
+Print Assumptions C05_tee_level_orig_refuted.
+Theorem C05_filter_enabled_orig_refuted : ~ enabled_orig_full.
+Proof. exact filter_enabled_orig_refuted. Qed.
+Print Assumptions C05_filter_enabled_orig_refuted.
+Theorem C05_filter_level_orig_refuted :
+  level_of_orig stale_world stale_witness = WarnL /\ delivered stale_world stale_witness WarnL = [] /\
+  ~ level_ok stale_world stale_witness (level_of_orig stale_world stale_witness).
+Proof. exact filter_level_orig_refuted. Qed.
+Print Assumptions C05_filter_level_orig_refuted.
+
+(* the oracle the driver runs accepts the model's observation on every input *)
+Theorem C05_wire : forall i, spec i (model i) = true.
+Proof. exact spec_model. Qed.
+Print Assumptions C05_wire.
+
+(* ---- non-vacuity ---- *)
+Definition ex_tree : core :=
+  Tee [Leaf 0 (ELvl DebugL);
+       Hooked (Filter (Tee [Leaf 1 (EAtom 0); Lazy (Leaf 2 (EFn (fun l => l =? WarnL)))]) (ELvl WarnL)) 7;
+       Sampled (Leaf 3 (ELvl ErrorL))].
+Example C05_example_warn :
+  delivered (fun _ => InfoL) ex_tree WarnL = [0; 1; 2]%nat /\ hooks_due (fun _ => InfoL) ex_tree WarnL = [7]%nat /\
+  cores_of (check (fun _ => InfoL) ex_tree WarnL None) = [WLeaf 0; WLeaf 1; WLeaf 2; WHook 7].
+Proof. vm_compute. repeat split; reflexivity. Qed.
+Example C05_example_info :
+  cores_of (check (fun _ => InfoL) ex_tree InfoL None) = [WLeaf 0] /\ level_of (fun _ => InfoL) ex_tree = DebugL /\
+  level_of (fun _ => InfoL) (Tee [Nop; Leaf 1 (EAtom 0)]) = InfoL /\ level_of (fun _ => 100) (Tee [Nop; Leaf 1 (EAtom 0)]) = InvalidL.
+Proof. vm_compute. repeat split; reflexivity. Qed.
+Example C05_example_increase :
+  increase_ok (fun _ => InfoL) (Leaf 0 (ELvl WarnL)) (ELvl ErrorL) = true /\
+  increase_ok (fun _ => InfoL) (Leaf 0 (ELvl WarnL)) (ELvl InfoL) = false.
+Proof. vm_compute. split; reflexivity. Qed.
